@@ -30,7 +30,7 @@ pub trait RollingValidBinary<T: IsNone>: Vec1View<T> {
         T2::Inner: Number,
         f64: Cast<U>,
     {
-        let min_periods = min_periods.unwrap_or(window / 2).min(window);
+        let min_periods = min_periods.unwrap_or(window / 2).min(window).max(2);
         let mut sum_a = 0.;
         let mut sum_b = 0.;
         let mut sum_ab = 0.;
@@ -97,7 +97,7 @@ pub trait RollingValidBinary<T: IsNone>: Vec1View<T> {
         let mut sum2_b = 0.;
         let mut sum_ab = 0.;
         let mut n = 0;
-        let min_periods = min_periods.unwrap_or(window / 2).min(window);
+        let min_periods = min_periods.unwrap_or(window / 2).min(window).max(2);
         self.rolling2_apply(
             other,
             window,
